@@ -426,8 +426,25 @@ Send(r) ==          \* request written completely; the peer answers with r's tok
   /\ LET c == asg[r] IN
      /\ sent' = [sent EXCEPT ![r] = @ \cup {c}]
      /\ cwire' = [cwire EXCEPT ![c] = IF cmux[c] THEN @ ELSE Append(@, r)]
+     \* HTTP/2: the first request through also sends the connection preface (http2 103-111)
+     /\ cexch' = [cexch EXCEPT ![c] = IF cmux[c] THEN "inited" ELSE @]
+     /\ cst[c] # "closed" \/ ~cmux[c]
   /\ pc' = [pc EXCEPT ![r] = "recv"]
-  /\ UNCHANGED <<cfg, pool, nextc, cst, corg, cmux, cexp, cdead, cerr, cstr, ccnt, cexch, evicted, queue, asg, tocl, nxt, exc, creq, got, wdl, clock, budget, pclosed>>
+  /\ UNCHANGED <<cfg, pool, nextc, cst, corg, cmux, cexp, cdead, cerr, cstr, ccnt, evicted, queue, asg, tocl, nxt, exc, creq, got, wdl, clock, budget, pclosed>>
+
+(* HTTP/2: the connection was closed (the preface could not be sent) while this request waited
+   for the init lock behind the request that tried: nothing of it has been written, it is
+   refused like at the gate and assigned afresh.
+   DEVIATION InitRetryOnClosed (the code before the fix): it tries to initialise the closed
+   connection again and fails with the h2 library's own ProtocolError *)
+MuxLateRefuse(r) ==
+  /\ pc[r] = "send" /\ asg[r] # None /\ cmux[asg[r]] /\ cst[asg[r]] = "closed" /\ asg[r] \notin sent[r]
+  /\ \/ /\ IF Threads THEN pc' = [pc EXCEPT ![r] = "refused"] /\ UNCHANGED asg
+                       ELSE pc' = [pc EXCEPT ![r] = "retry"] /\ asg' = [asg EXCEPT ![r] = None]
+        /\ UNCHANGED exc
+     \/ /\ Dev("InitRetryOnClosed")
+        /\ pc' = [pc EXCEPT ![r] = "leave"] /\ exc' = [exc EXCEPT ![r] = "fail"] /\ UNCHANGED asg
+  /\ UNCHANGED <<cfg, pool, nextc, cvars, evicted, queue, tocl, nxt, creq, sent, got, wdl, clock, budget, pclosed>>
 
 RecvHead(r) ==
   /\ pc[r] = "recv"
@@ -465,11 +482,16 @@ ConnRelease(r) ==
          clean == cexch[c] = "clean" \/ Dev("IdleAlways")
      IN
      IF cmux[c]
-     THEN /\ IF others = {} /\ cst[c] = "active"
-               THEN /\ cst' = [cst EXCEPT ![c] = "idle"]
-                    /\ cexp' = [cexp EXCEPT ![c] = IF Expiry = NoExpiry THEN NoExpiry ELSE clock + Expiry]
-               ELSE UNCHANGED <<cfg, cst, cexp>>
-          /\ UNCHANGED <<cfg, cstr, cexch>>
+     THEN \/ /\ IF others = {} /\ cst[c] = "active"
+                  THEN /\ cst' = [cst EXCEPT ![c] = "idle"]
+                       /\ cexp' = [cexp EXCEPT ![c] = IF Expiry = NoExpiry THEN NoExpiry ELSE clock + Expiry]
+                  ELSE UNCHANGED <<cfg, cst, cexp>>
+             /\ UNCHANGED <<cfg, cstr, cexch>>
+          \/ \* a connection the peer has terminated (GOAWAY) closes itself when its last stream ends
+             /\ others = {} /\ cst[c] = "active" /\ cerr[c]
+             /\ cst' = [cst EXCEPT ![c] = "closed"]
+             /\ cstr' = [cstr EXCEPT ![c] = IF @ = "open" THEN "closed" ELSE @]
+             /\ UNCHANGED <<cfg, cexp, cexch>>
      ELSE IF clean /\ cst[c] = "active"
      THEN /\ cst' = [cst EXCEPT ![c] = "idle"]
           /\ cexp' = [cexp EXCEPT ![c] = IF Expiry = NoExpiry THEN NoExpiry ELSE clock + Expiry]
@@ -515,17 +537,35 @@ InExchange == {"send", "recv", "hold"}
 
 (* a network error / protocol error during the exchange: the connection's exception
    path runs the shielded _response_closed (http11 132-136) *)
+InitPhase(r) == pc[r] = "send" /\ asg[r] # None /\ cmux[asg[r]] /\ cexch[asg[r]] = "clean" /\ cst[asg[r]] = "active"
+(* HTTP/2: a failure (or cancellation) while the connection preface is being sent closes the
+   whole connection (http2 103-111); the request leaves without a stream of its own *)
+InitFailCloses(r) ==
+  /\ cst' = [cst EXCEPT ![asg[r]] = "closed"]
+  /\ cstr' = [cstr EXCEPT ![asg[r]] = IF @ = "open" THEN "closed" ELSE @]
+  /\ pc' = [pc EXCEPT ![r] = "leave"]
 OpFail(r) ==
   /\ pc[r] \in {"send", "recv", "hold"} /\ budget > 0
-  /\ pc' = [pc EXCEPT ![r] = "rel"]
+  /\ \/ pc' = [pc EXCEPT ![r] = "rel"] /\ UNCHANGED <<cst, cstr>>
+     \/ InitPhase(r) /\ InitFailCloses(r)
   /\ exc' = [exc EXCEPT ![r] = "fail"]
   /\ budget' = budget - 1
-  /\ UNCHANGED <<cfg, pool, nextc, cvars, evicted, queue, asg, tocl, nxt, creq, sent, got, wdl, clock, pclosed>>
+  /\ UNCHANGED <<cfg, pool, nextc, corg, cmux, cexp, cdead, cerr, ccnt, cexch, cwire, evicted, queue, asg, tocl, nxt, creq, sent, got, wdl, clock, pclosed>>
 
 (* the connection was closed under the request by somebody else (an evicting pass, or
    pool.close()): the next network operation fails *)
 Collateral(r) ==
-  /\ pc[r] \in InExchange /\ cst[asg[r]] = "closed"
+  /\ pc[r] \in InExchange
+  /\ \/ /\ cst[asg[r]] = "closed"
+        \* (a multiplexing connection that was closed before anything of r was written refuses r
+        \*  instead - MuxLateRefuse - unless the whole pool was closed)
+        /\ (cmux[asg[r]] /\ pc[r] = "send" /\ asg[r] \notin sent[r]) => pclosed
+     \/ cmux[asg[r]] /\ cerr[asg[r]]   \* HTTP/2: a read / write error is remembered and fails every stream
+     \* DEVIATION MuxCancelCorrupts (the code): a request cancelled while its frames are being
+     \* written loses them (they were already taken out of the h2 buffer), the HPACK state of the
+     \* two ends diverges, the server answers the NEXT request with GOAWAY(PROTOCOL_ERROR)
+     \/ /\ Dev("MuxCancelCorrupts") /\ cmux[asg[r]]
+        /\ \E x \in Req \ {r} : exc[x] = "cancel" /\ OriginOf[x] = OriginOf[r]
   /\ pc' = [pc EXCEPT ![r] = "rel"]
   /\ exc' = [exc EXCEPT ![r] = "fail"]
   /\ UNCHANGED <<cfg, pool, nextc, cvars, evicted, queue, asg, tocl, nxt, creq, sent, got, wdl, clock, budget, pclosed>>
@@ -572,8 +612,8 @@ CancelDeliver(r) ==
               /\ cst[asg[r]] # "new" \/ Dev("CancelAtGateLeavesNew")
               /\ UNCHANGED cst /\ pc' = [pc EXCEPT ![r] = "leave"]
      \/ /\ pc[r] \in InExchange
-        /\ pc' = [pc EXCEPT ![r] = "rel"]
-        /\ UNCHANGED <<cst, cstr>>
+        /\ \/ pc' = [pc EXCEPT ![r] = "rel"] /\ UNCHANGED <<cst, cstr>>
+           \/ InitPhase(r) /\ InitFailCloses(r)
      \/ /\ pc[r] = "rel"             \* the caller itself is cancelled between reading and closing:
         /\ UNCHANGED <<pc, cst, cstr>>  \* the close runs as usual, only the outcome differs
   /\ exc' = [exc EXCEPT ![r] = "cancel"]
@@ -629,7 +669,7 @@ Internal(r) ==
   \/ CloseEvicted(r) \/ StartWait(r) \/ Wake(r) \/ PoolTimeout(r) \/ Enter(r) \/ ReqLock(r)
   \/ ConnectOk(r) \/ Established(r) \/ Activate(r) \/ Retry(r) \/ Send(r) \/ RecvHead(r) \/ ReadAll(r)
   \/ ConnRelease(r) \/ Leave(r) \/ CancelDeliver(r) \/ ReleaseStream(r) \/ NativeCancelInShield(r)
-  \/ Requeue(r) \/ Collateral(r)
+  \/ Requeue(r) \/ Collateral(r) \/ MuxLateRefuse(r)
 
 Env(r) == Call(r) \/ Enqueue(r) \/ ConnectFail(r) \/ EstabFail(r) \/ OpFail(r) \/ CancelRequest(r) \/ Abandon(r)
 
@@ -724,7 +764,7 @@ PoolTimeoutExact ==
 
 (* C14: a request that is re-queued after a connection refused it had written nothing there *)
 RetryOnlyUnsent ==
-  [][\A r \in Req : (pc[r] = "gate" /\ pc'[r] \in {"retry", "refused"}) => asg[r] \notin sent[r]]_vars
+  [][\A r \in Req : (pc[r] \in {"gate", "send"} /\ pc'[r] \in {"retry", "refused"}) => asg[r] \notin sent[r]]_vars
 
 (* C09: an idle connection is activated only if it is not stale *)
 StateConstraint == TRUE
